@@ -16,7 +16,7 @@
    - time.Now().UTC().Format(RFC3339) is the parameter [now];
      the validation of a caller-supplied created value is the recogniser [rfc3339_ok]
      (mirrors time.parseStrictRFC3339 step by step). *)
-From Oras Require Import Base.Prelude Base.Regex Generated.GC19.
+From Oras Require Import Base.Prelude Base.Regex Base.StrCheck Generated.GC19.
 
 Definition kv := (str * str)%type.
 
@@ -152,7 +152,11 @@ Definition rfc3339_gen (strict : bool) (s : str) : bool :=
     (1 <=? day) && (day <=? days_in month year) && tz_ok strict (skip_frac strict s)
   end end end end end end end end end end end.
 
-Definition rfc3339_ok : str -> bool := rfc3339_gen true.
+(* ensureAnnotationCreated -> validateRFC3339: time.Parse(time.RFC3339, v) must succeed and none of
+   the explicit checks translated from pack.go (Generated: validateRFC3339_checks) may reject.
+   Proofs/PackTime.v shows this equals [rfc3339_gen true]. *)
+Definition rfc3339_ok (s : str) : bool :=
+  rfc3339_gen false s && negb (switch_rejects s validateRFC3339_checks).
 Definition rfc3339_ok_prefix : str -> bool := rfc3339_gen false.
 
 (* ---------- annotations ---------- *)
@@ -174,7 +178,9 @@ Definition ensure_created (ann : list kv) (key now : str) : option (list kv) :=
 Inductive keykind :=
 | KFull        (* media type + digest + size: memory store, fallback of the file store *)
 | KDigest      (* digest only: OCI layout *)
-| KNamespace.  (* digest within the manifest / blob namespace: a registry repository *)
+| KNamespace   (* digest within the manifest / blob namespace: a registry repository *)
+| KFile.       (* file store: named files are found by digest; unnamed content lives in a fallback
+                  memory store keyed by media type + digest + size *)
 
 Record tcfg := mkTcfg {
   t_exists : bool;     (* the pusher also implements content.ReadOnlyStorage *)
@@ -191,7 +197,7 @@ Definition manifest_media_types : list str :=
 
 Definition is_manifest_mt (mt : str) : bool := existsb (str_eqb mt) manifest_media_types.
 
-Record entry := mkEntry { e_mt : str; e_dg : str; e_sz : Z; e_bytes : str }.
+Record entry := mkEntry { e_mt : str; e_dg : str; e_sz : Z; e_bytes : str; e_named : bool }.
 
 Inductive role := RBlob | RManifest.
 Inductive event :=
@@ -204,15 +210,28 @@ Record state := mkState {
   s_events : list event     (* in call order *)
 }.
 
+Definition full_key (d : desc) (e : entry) : bool :=
+  str_eqb (d_mt d) (e_mt e) && (d_sz d =? e_sz e)%Z.
+
+(* Exists: does entry e answer for descriptor d (descriptors without a title annotation) *)
 Definition same_key (k : keykind) (d : desc) (e : entry) : bool :=
   str_eqb (d_dg d) (e_dg e) &&
   match k with
   | KDigest => true
-  | KFull => str_eqb (d_mt d) (e_mt e) && (d_sz d =? e_sz e)%Z
+  | KFull => full_key d e
   | KNamespace => Bool.eqb (is_manifest_mt (d_mt d)) (is_manifest_mt (e_mt e))
+  | KFile => if e_named e then true else full_key d e
+  end.
+
+(* Push: does entry e make the push of d answer ErrAlreadyExists *)
+Definition push_key (k : keykind) (d : desc) (e : entry) : bool :=
+  match k with
+  | KFile => negb (e_named e) && same_key k d e
+  | _ => same_key k d e
   end.
 
 Definition stored (k : keykind) (st : list entry) (d : desc) : bool := existsb (same_key k d) st.
+Definition push_dup (k : keykind) (st : list entry) (d : desc) : bool := existsb (push_key k d) st.
 
 Definition faulty (fa : option nat) (s : state) : bool :=
   match fa with Some k => Nat.eqb k (s_ops s) | None => false end.
@@ -231,8 +250,8 @@ Definition do_push (tc : tcfg) (fa : option nat) (s : state) (r : role) (d : des
   : state * bool :=
   let s' := tick s (EvPush r d bytes) in
   if faulty fa s then (s', false)
-  else if stored (t_key tc) (s_store s) d then (s', true)
-  else (mkState (s_store s ++ [mkEntry (d_mt d) (d_dg d) (d_sz d) bytes]) (s_ops s') (s_events s'), true).
+  else if push_dup (t_key tc) (s_store s) d then (s', true)
+  else (mkState (s_store s ++ [mkEntry (d_mt d) (d_dg d) (d_sz d) bytes false]) (s_ops s') (s_events s'), true).
 
 (* pushIfNotExist *)
 Definition push_if_not_exist (tc : tcfg) (fa : option nat) (s : state) (d : desc) (bytes : str)
